@@ -9,7 +9,7 @@
     Statements only; proofs in Proofs/Safety_Proofs.v and the per-model files. *)
 From Coq Require Import ZArith QArith List.
 From SB Require Import Base.Prelude Base.Num Gen.Generated Model.Codec Model.Crc Model.Container Model.Loaders
-  Model.Traj Model.Yaw Model.Rth Model.Light Spec.LightSpec Proofs.Light_Proofs Proofs.Safety_Proofs.
+  Model.Traj Model.Yaw Model.Rth Model.Light Model.Stats Spec.LightSpec Proofs.Light_Proofs Proofs.Safety_Proofs Proofs.Safety2_Proofs.
 Import ListNotations.
 Local Open Scope Z_scope.
 
@@ -33,6 +33,18 @@ Print Assumptions trajectory_total.
 Theorem trajectory_short_header : forall bytes, (length bytes < 9)%nat -> traj_init bytes = Err SB_EPARSE.
 Proof. exact Safety_Proofs.trajectory_short_header. Qed.
 Print Assumptions trajectory_short_header.
+
+(** the statistics queries on whatever loaded (takeoff / landing proposals; the
+    bounding box walks the same segment list) *)
+Theorem stats_total : forall bytes tr ascent speed acc descent thr,
+  traj_init bytes = Ok tr ->
+  Stats.propose_takeoff tr ascent speed acc <> Fuel /\
+  (forall s o, Stats.propose_takeoff tr ascent speed acc <> OOB s o) /\
+  Stats.propose_landing tr descent thr <> Fuel /\
+  (forall s o, Stats.propose_landing tr descent thr <> OOB s o) /\
+  (forall s o, segments tr <> OOB s o).
+Proof. exact Safety2_Proofs.stats_total. Qed.
+Print Assumptions stats_total.
 
 (** yaw control *)
 Theorem yaw_total : forall bytes y t,
